@@ -1,12 +1,12 @@
 #!/bin/sh
 # confirm a sub-agent's seeded change in its scratch worktree: suite green with the change (demo excluded), demo fails with it, passes without
-W="$1"; ID="$2"; FEAT="$3"
+W="$1"; ID="$2"; FEAT="$3"; DEMO="${4:-$2}"
 cd "$W" || exit 2
-mv tests/demo_$ID.rs /tmp/demo_$ID.rs.keep
+mv tests/demo_$DEMO.rs /tmp/demo_$DEMO.rs.keep
 A=$(cargo test --offline $FEAT 2>&1 | grep -E "^test result" | awk '{p+=$4; f+=$6} END {print p" passed "f" failed"}')
-mv /tmp/demo_$ID.rs.keep tests/demo_$ID.rs
-B=$(cargo test --offline $FEAT --test demo_$ID 2>&1 | grep -E "^test result" | head -1)
+mv /tmp/demo_$DEMO.rs.keep tests/demo_$DEMO.rs
+B=$(cargo test --offline $FEAT --test demo_$DEMO 2>&1 | grep -E "^test result" | head -1)
 git stash push -q -- src
-C=$(cargo test --offline $FEAT --test demo_$ID 2>&1 | grep -E "^test result" | head -1)
+C=$(cargo test --offline $FEAT --test demo_$DEMO 2>&1 | grep -E "^test result" | head -1)
 git stash pop -q
 echo "suite with change: $A | demo with change: $B | demo without: $C"
